@@ -380,4 +380,202 @@ theorem supervision_timeout_enforced (s s' : LL) (ht : s.tp.timeoutUs ≤ s.time
       Option.some.injEq] at h
     rw [← h]; rfl
 
+/-! ### "Every connection event is scheduled at the last anchor plus a whole number of connection intervals" -/
+
+-- planning with no connection update pending: the radio gets the window for `timeSince`, nothing else changes
+theorem applyPendingAndSetup_none {s1 s' : LL} (hp : s1.pending = none) (h : applyPendingAndSetup s1 = some s') :
+    ∃ a b, window s1.timeSince s1.tp.winSize s1.tp.winOffset s1.sca = some (a, b)
+      ∧ s' = { s1 with win := (a, b, s1.tp.interval) } := by
+  unfold applyPendingAndSetup handlePending at h
+  rw [hp] at h
+  simp only [Option.bind_eq_bind, Option.bind_some, if_true] at h
+  exact setupNext_some h
+
+-- `k` consecutive lost events
+def lostRun : Nat → LL → Option LL
+  | 0, s => some s
+  | k + 1, s => (step s .lost).bind (lostRun k)
+
+-- an event that took place (no connection update involved) plans the next event a whole number `l` of
+-- intervals later, `1 ≤ l ≤ latency + 1`, and the radio gets the window for exactly that distance
+theorem event_at_anchor_plus_l_intervals (s s' : LL) (hiv : s.tp.interval ≤ 4000000) (hl : s.tp.latency ≤ 499)
+    (hp : s.pending = none) (h : endEvent s none = some s') (hc : s'.phase ≠ .advertising) :
+    ∃ l, 1 ≤ l ∧ l ≤ s.tp.latency + 1 ∧ s'.timeSince = l * s.tp.interval
+      ∧ s'.counter = (s.counter + l) % 65536 ∧ s'.tp = { s.tp with winSize := 0 } ∧ s'.pending = none
+      ∧ ∃ a b, window s'.timeSince 0 s.tp.winOffset s.sca = some (a, b) ∧ s'.win = (a, b, s.tp.interval) := by
+  have hb := advance_bounds s.cfg ⟨0, s.counter, 0, 1⟩ s.tp.latency none hl
+  have key : ∀ (l proc' : Nat), 1 ≤ l ∧ l ≤ s.tp.latency + 1 →
+      (dtMul s.tp.interval l).bind (fun ts' => applyPendingAndSetup
+        { cfg := s.cfg, ownSca := s.ownSca, phase := .connected, advSched := s.advSched, reason := s.reason,
+          counter := (s.counter + l) % 65536, timeSince := ts',
+          tp := ⟨0, s.tp.winOffset, s.tp.interval, s.tp.latency, s.tp.timeoutUs⟩, sca := s.sca, proc := proc',
+          pending := none, win := s.win }) = some s' →
+      ∃ l, 1 ≤ l ∧ l ≤ s.tp.latency + 1 ∧ s'.timeSince = l * s.tp.interval
+        ∧ s'.counter = (s.counter + l) % 65536 ∧ s'.tp = { s.tp with winSize := 0 } ∧ s'.pending = none
+        ∧ ∃ a b, window s'.timeSince 0 s.tp.winOffset s.sca = some (a, b) ∧ s'.win = (a, b, s.tp.interval) := by
+    intro l proc' hb h
+    have hm : s.tp.interval * l ≤ 4000000 * 500 := Nat.mul_le_mul hiv (by omega)
+    rw [dtMul_small (by omega), Option.bind_some] at h
+    obtain ⟨a, b, hw, e⟩ := applyPendingAndSetup_none rfl h
+    refine ⟨l, hb.1, hb.2, ?_, ?_, ?_, ?_, a, b, ?_, ?_⟩
+    · rw [e]; exact Nat.mul_comm _ _
+    · rw [e]
+    · rw [e]
+    · rw [e]
+    · rw [e]; exact hw
+    · rw [e]
+  unfold endEvent at h
+  simp only [Bool.not_true, Bool.false_eq_true, if_false] at h
+  rw [hp] at h
+  simp only [Option.map_none] at h
+  by_cases hpr : s.proc ≠ 0 ∧ s.proc ≤ s.timeSince
+  · simp only [if_pos hpr, Option.some.injEq] at h
+    rw [← h] at hc
+    exact absurd rfl hc
+  · simp only [if_neg hpr, Option.bind_eq_bind] at h
+    by_cases hz : s.proc ≠ 0
+    · simp only [if_pos hz] at h
+      cases hq : dtSub s.proc s.timeSince with
+      | none => rw [hq] at h; cases h
+      | some proc' =>
+        rw [hq, Option.bind_some] at h
+        exact key _ proc' hb h
+    · simp only [if_neg hz] at h
+      rw [Option.bind_some] at h
+      exact key _ 0 hb h
+
+-- one lost event with no connection update pending
+theorem lost_step_none (s s' : LL) (hiv : s.tp.interval ≤ 4000000) (hto : s.tp.timeoutUs ≤ 32000000)
+    (hp : s.pending = none) (hc : s.phase ≠ .advertising) (h : step s .lost = some s')
+    (hc' : s'.phase ≠ .advertising) :
+    s'.timeSince = s.timeSince + s.tp.interval ∧ s'.counter = (s.counter + 1) % 65536
+      ∧ s'.tp = s.tp ∧ s'.sca = s.sca ∧ s'.pending = none ∧ s'.phase = s.phase
+      ∧ ∃ a b, window s'.timeSince s.tp.winSize s.tp.winOffset s.sca = some (a, b) ∧ s'.win = (a, b, s.tp.interval) := by
+  have key : s.timeSince < s.tp.timeoutUs →
+      (dtAdd s.timeSince s.tp.interval).bind (fun ts' => applyPendingAndSetup
+        { s with counter := (s.counter + 1) % 65536, timeSince := ts' }) = some s' →
+      s'.timeSince = s.timeSince + s.tp.interval ∧ s'.counter = (s.counter + 1) % 65536
+      ∧ s'.tp = s.tp ∧ s'.sca = s.sca ∧ s'.pending = none ∧ s'.phase = s.phase
+      ∧ ∃ a b, window s'.timeSince s.tp.winSize s.tp.winOffset s.sca = some (a, b) ∧ s'.win = (a, b, s.tp.interval) := by
+    intro ht h
+    rw [dtAdd_small (by omega), Option.bind_some] at h
+    obtain ⟨a, b, hw, e⟩ := applyPendingAndSetup_none (by exact hp) h
+    refine ⟨?_, ?_, ?_, ?_, ?_, ?_, a, b, ?_, ?_⟩
+    · rw [e]
+    · rw [e]
+    · rw [e]
+    · rw [e]
+    · rw [e]; exact hp
+    · rw [e]
+    · rw [e]; exact hw
+    · rw [e]
+  simp only [step, if_pos hc] at h
+  unfold timeoutStep at h
+  by_cases hpr : s.proc ≠ 0 ∧ s.proc ≤ s.timeSince
+  · simp only [if_pos hpr, Option.some.injEq] at h
+    rw [← h] at hc'
+    exact absurd rfl hc'
+  · simp only [if_neg hpr] at h
+    by_cases ht : s.timeSince < s.tp.timeoutUs
+    · simp only [if_pos ht] at h
+      have h5 : dtMul s.tp.interval 5 = some (s.tp.interval * 5) := dtMul_small (by omega)
+      by_cases hcon : s.phase = .connecting
+      · simp only [if_pos hcon, h5, Option.map_some, Option.bind_eq_bind, Option.bind_some] at h
+        by_cases h6 : s.timeSince ≥ s.tp.interval * 5
+        · simp only [h6, decide_true, Bool.not_true, Bool.false_eq_true, if_false, Option.some.injEq] at h
+          rw [← h] at hc'
+          exact absurd rfl hc'
+        · simp only [h6, decide_false, Bool.not_false, if_true] at h
+          exact key ht h
+      · simp only [if_neg hcon, Option.bind_eq_bind, Option.bind_some, if_true] at h
+        exact key ht h
+    · simp only [if_neg ht, Option.bind_eq_bind, Option.bind_some, Bool.false_eq_true, if_false,
+        Option.some.injEq] at h
+      rw [← h] at hc'
+      exact absurd rfl hc'
+
+-- after `k` further lost events (the connection still alive, no connection update pending) the planned
+-- event is `k` more intervals after the same anchor: `timeSince = timeSince₀ + k · interval`; parameters
+-- unchanged, the radio gets the window for exactly that distance
+theorem event_at_anchor_plus_k_intervals (k : Nat) (s s' : LL) (hiv : s.tp.interval ≤ 4000000)
+    (hto : s.tp.timeoutUs ≤ 32000000) (hp : s.pending = none) (hc0 : s.phase ≠ .advertising)
+    (h : lostRun k s = some s') (hc : s'.phase ≠ .advertising) :
+    s'.timeSince = s.timeSince + k * s.tp.interval ∧ s'.counter % 65536 = (s.counter + k) % 65536
+      ∧ s'.tp = s.tp ∧ s'.sca = s.sca ∧ s'.pending = none
+      ∧ (k ≠ 0 → ∃ a b, window s'.timeSince s.tp.winSize s.tp.winOffset s.sca = some (a, b)
+            ∧ s'.win = (a, b, s.tp.interval)) := by
+  induction k generalizing s s' with
+  | zero =>
+    simp only [lostRun, Option.some.injEq] at h
+    rw [← h]
+    exact ⟨by omega, rfl, rfl, rfl, hp, fun hk => absurd rfl hk⟩
+  | succ k ih =>
+    simp only [lostRun] at h
+    cases h1 : step s .lost with
+    | none => rw [h1] at h; cases h
+    | some s1 =>
+      rw [h1, Option.bind_some] at h
+      by_cases hc1 : s1.phase = .advertising
+      · -- once advertising, lost events do not apply any more
+        have hstay : ∀ (n : Nat) (t t' : LL), t.phase = .advertising → lostRun n t = some t' → t'.phase = .advertising := by
+          intro n
+          induction n with
+          | zero => intro t t' ht h; simp only [lostRun, Option.some.injEq] at h; rw [← h]; exact ht
+          | succ n ihn =>
+            intro t t' ht h
+            simp only [lostRun, step, ht, ne_eq, not_true_eq_false, if_false, Option.bind_some] at h
+            exact ihn t t' ht h
+        exact absurd (hstay k s1 s' hc1 h) hc
+      · obtain ⟨e1, e2, e3, e4, e5, e6, a, b, hw, e7⟩ := lost_step_none s s1 hiv hto hp hc0 h1 hc1
+        have := ih s1 s' (by rw [e3]; exact hiv) (by rw [e3]; exact hto) e5 hc1 h hc
+        obtain ⟨f1, f2, f3, f4, f5, f6⟩ := this
+        refine ⟨?_, ?_, ?_, ?_, f5, fun _ => ?_⟩
+        · rw [f1, e1, e3, Nat.add_mul]; omega
+        · rw [f2, e2]; omega
+        · rw [f3, e3]
+        · rw [f4, e4]
+        · by_cases hk : k = 0
+          · subst hk
+            simp only [lostRun, Option.some.injEq] at h
+            rw [← h]
+            exact ⟨a, b, hw, e7⟩
+          · obtain ⟨a', b', hw', e'⟩ := f6 hk
+            rw [e3, e4] at hw'
+            rw [e3] at e'
+            exact ⟨a', b', hw', e'⟩
+
+/-! ### non-vacuity of the hypotheses above: concrete histories -/
+
+def exCfg : Cfg := ⟨false, false, false, false, false, false⟩
+
+-- CONNECT_IND (WinSize 3, WinOffset 11, Interval 24 = 30 ms, Latency 0, Timeout 72 = 720 ms, SCA 5),
+-- the first event takes place, then the next three events are lost
+def exConnected : Option LL := run (init exCfg 500) [.connect ⟨3, 11, 24, 0, 72⟩ 5, .ev]
+
+example : exConnected.map (fun s => (s.phase, s.timeSince, s.win))
+    = some (.connected, 30000, (29984, 30016, 30000)) := by decide
+example : exConnected.map (fun s => (s.tp.interval, s.tp.latency, s.tp.timeoutUs, s.pending.isNone))
+    = some (30000, 0, 720000, true) := by decide
+
+example : (exConnected.bind (lostRun 3)).map (fun s => (s.phase, s.timeSince, s.win))
+    = some (.connected, 120000, (119935, 120065, 30000)) := by decide
+
+-- supervision: timeout 210 ms, interval 50 ms: the fifth lost event (250 ms after the anchor) ends the link
+example : ((run (init exCfg 20) [.connect ⟨2, 0, 40, 0, 21⟩ 0, .ev]).bind (lostRun 4)).map (fun s => (s.phase, s.timeSince))
+    = some (.connected, 250000) := by decide
+example : ((run (init exCfg 20) [.connect ⟨2, 0, 40, 0, 21⟩ 0, .ev]).bind (lostRun 5)).map (fun s => (s.phase, s.reason))
+    = some (.advertising, 8) := by decide
+
+-- a connection that is never established is given up with the sixth lost event
+example : ((run (init exCfg 500) [.connect ⟨3, 11, 24, 0, 72⟩ 5]).bind (lostRun 5)).map (·.phase) = some .connecting
+    ∧ ((run (init exCfg 500) [.connect ⟨3, 11, 24, 0, 72⟩ 5]).bind (lostRun 6)).map (·.phase) = some .advertising := by
+  decide
+
+-- a connection update with valid parameters is applied at its instant; one with interval 5 ends the link there
+example : (run (init exCfg 500) [.connect ⟨3, 11, 24, 0, 72⟩ 5, .upd ⟨5, 6, 40, 1, 25⟩ 2, .ev]).map
+    (fun s => (s.phase, s.tp, s.timeSince, s.win)) = some (.changed, ⟨6250, 7500, 50000, 1, 250000⟩, 30000, (37480, 43774, 50000)) := by
+  decide
+example : (run (init exCfg 500) [.connect ⟨3, 11, 24, 0, 72⟩ 5, .upd ⟨5, 5, 5, 1, 25⟩ 2, .ev]).map (·.phase)
+    = some .advertising := by decide
+
 end BluetoeModel.Timing
